@@ -58,6 +58,10 @@ type docCase struct {
 	fr         frame
 	nontrivial bool
 	deep       bool // run the expensive entry points (files, facade, EPUB) too
+	// loose: the page has loose inline text directly inside a container next to a possibly-excluded block.
+	// Removing that block physically turns the container into a paragraph (a different classification of the
+	// loose text, which the property does not govern), so the equality-with-pruned-document clause is not judged.
+	loose bool
 }
 
 // cache walk: visits every ordered pair of modes once (Eulerian circuit of the complete digraph with loops).
@@ -382,6 +386,10 @@ func (c *checker) clauses(dc docCase, ob *observed, report func(desc string, ok 
 				if !isSubseq(a, b) {
 					bad = fmt.Sprintf("%s: mode %s returns %v, which is not a subsequence of mode %s: %v", viaNames[via], modeNames[m], a, modeNames[m-1], b)
 				}
+				// the same on the returned units (one line per paragraph / heading / list item / table row)
+				if la, lb := lines(ob.prim[m].r[via]), lines(ob.prim[m-1].r[via]); !isSubseq(la, lb) {
+					bad = fmt.Sprintf("%s: the units (lines) mode %s returns are not a subsequence of the units of mode %s\n--- %s\n%s\n--- %s\n%s", viaNames[via], modeNames[m], modeNames[m-1], modeNames[m], ob.prim[m].r[via], modeNames[m-1], ob.prim[m-1].r[via])
+				}
 			}
 			if ob.prim[m].err != "" {
 				bad = "error: " + ob.prim[m].err
@@ -397,6 +405,36 @@ func (c *checker) clauses(dc docCase, ob *observed, report func(desc string, ok 
 			}
 		}
 		// unchanged outside: identical to mode None on the document with the excluded subtrees removed
+		// no leak: nothing from inside a subtree the mode excludes is returned (judged on its own, independent of
+		// what mode None returned)
+		d = sub("chk", "noleak", "mode", modeNames[m])
+		if dry {
+			report(d, true, "", "", "")
+		} else if !ob.ref.ambig {
+			var kept []*node
+			leaves(dc.body, ob.ref.skipper(m), &kept)
+			keptSet := map[string]bool{}
+			for _, l := range kept {
+				keptSet[l.tok[:4]] = true
+			}
+			bad := ""
+			for via := 0; via < 3 && bad == ""; via++ {
+				for _, id := range ids(tokens(ob.prim[m].r[via])) {
+					if l := byID[id]; l != nil && !keptSet[id] {
+						bad = fmt.Sprintf("%s: mode %s returns %s, the text of a %s element inside an excluded subtree\noutput:\n%s", viaNames[via], modeNames[m], id, l.kind, ob.prim[m].r[via])
+						break
+					}
+				}
+			}
+			if bad != "" {
+				report(d, false, "leak-from-excluded-subtree", bad, "")
+			} else {
+				report(d, true, "", "", "noleak:"+bucket(nExcl[m]))
+			}
+		}
+		if dc.loose {
+			continue
+		}
 		d = sub("chk", "same", "mode", modeNames[m])
 		if dry {
 			report(d, true, "", "", "")
@@ -489,14 +527,16 @@ func (c *checker) clauses(dc docCase, ob *observed, report func(desc string, ok 
 			// the facade has no mode switch: its result must be the result of one of the four modes
 			got := tokens(o.r[via])
 			which := -1
-			for m := 0; m < 4; m++ {
-				if eqStrs(got, tokens(ob.prim[m].r[via])) {
+			for m := 0; m < 4 && which < 0; m++ {
+				if ep == "Open.epub" { // other frame (XHTML chapter): compare the tokens
+					if eqStrs(got, tokens(ob.prim[m].r[via])) {
+						which = m
+					}
+				} else if o.r[via] == ob.prim[m].r[via] {
 					which = m
-					break
 				}
 			}
-			exact := which >= 0 && (ep == "Open.epub" || o.r[via] == ob.prim[which].r[via])
-			if which < 0 || !exact {
+			if which < 0 {
 				report(d, false, "entry-point-differs", fmt.Sprintf("tabula %s %s corresponds to no exclusion mode of htmldoc on the same bytes\n--- %s\n%s\n--- htmldoc None\n%s\n--- htmldoc Standard\n%s", ep, viaNames[via], ep, o.r[via], ob.prim[0].r[via], ob.prim[2].r[via]), "")
 			} else {
 				report(d, true, "", "", "entry:facade")
